@@ -469,13 +469,65 @@ func splitFamily() seq.Family {
 	}
 }
 
+// boundaryFamily: integers of 8..11 bytes (continuation patterns all-80, all-ff, mixed) in each of
+// the three header fields, followed by nothing or by one more byte: the answer for "ten
+// continuation bytes" must be "malformed" whether or not anything follows.
+func boundaryFamily() seq.Family {
+	return seq.Family{
+		Name: "overlong-integers-at-buffer-end",
+		Run: func(ctx *seq.Ctx) {
+			pats := func(n int) [][]byte {
+				a, b, c := make([]byte, n), make([]byte, n), make([]byte, n)
+				for i := range a {
+					a[i], b[i] = 0x80, 0xff
+					c[i] = []byte{0x80, 0xff, 0x81}[i%3]
+				}
+				return [][]byte{a, b, c}
+			}
+			prefixes := [][]byte{{0x05}, {0x05, 0x01}, {0x05, 0x01, 0x01}, {0x05, 0x80, 0x01}, {0x85, 0xff, 0x7f, 0x03}}
+			tails := [][]byte{nil, {0x00}, {0x01}, {0x80}, {0x7f, 0x00}}
+			for n := 8; n <= 11; n++ {
+				for _, pat := range pats(n) {
+					for _, tail := range tails {
+						v := append(append([]byte{}, pat...), tail...)
+						ctx.Count(1, 1, 1)
+						if msg, _ := compareVarint(v); msg != "" {
+							ctx.Fail(msg+" input="+seq.Hex(v), map[string]string{"hex": seq.Hex(v), "kind": "varint"})
+						}
+						for _, pre := range prefixes {
+							b := append(append([]byte{}, pre...), v...)
+							ctx.Count(1, 1, 1)
+							msg, class := compareParse(b)
+							if msg != "" {
+								ctx.Fail(msg+" input="+seq.Hex(b), map[string]string{"hex": seq.Hex(b)})
+							}
+							ctx.Class(class)
+						}
+					}
+				}
+			}
+			ctx.Sample(map[string]string{"hex": "05" + "80808080808080808080"})
+		},
+		Replay: func(in json.RawMessage) string {
+			var v struct{ Hex, Kind string }
+			_ = json.Unmarshal(in, &v)
+			if v.Kind == "varint" {
+				msg, _ := compareVarint(seq.Unhex(v.Hex))
+				return msg
+			}
+			msg, _ := compareParse(seq.Unhex(v.Hex))
+			return msg
+		},
+	}
+}
+
 func families(tier string) []seq.Family {
 	a8 := []byte{0x00, 0x01, 0x02, 0x03, 0x7f, 0x80, 0x81, 0xff}
 	a4 := []byte{0x00, 0x01, 0x80, 0xff}
 	if tier == "quick" {
-		return []seq.Family{framesFamily(), stringsFamily("bytes<=3/full", full(), 3), stringsFamily("bytes<=6/8sym", a8, 6), stringsFamily("bytes<=10/4sym", a4, 10), varintValues(1 << 20), varintStrings(9), splitFamily()}
+		return []seq.Family{framesFamily(), stringsFamily("bytes<=3/full", full(), 3), stringsFamily("bytes<=6/8sym", a8, 6), stringsFamily("bytes<=10/4sym", a4, 10), varintValues(1 << 20), varintStrings(9), boundaryFamily(), splitFamily()}
 	}
-	return []seq.Family{framesFamily(), stringsFamily("bytes<=3/full", full(), 3), stringsFamily("bytes<=7/8sym", a8, 7), stringsFamily("bytes<=12/4sym", a4, 12), varintValues(1 << 26), varintStrings(11), splitFamily()}
+	return []seq.Family{framesFamily(), stringsFamily("bytes<=3/full", full(), 3), stringsFamily("bytes<=7/8sym", a8, 7), stringsFamily("bytes<=12/4sym", a4, 12), varintValues(1 << 26), varintStrings(11), boundaryFamily(), splitFamily()}
 }
 
 func init() {
